@@ -457,4 +457,86 @@ theorem nonempty_of_rows {r : Rng Data} {hd : List Data} {rest : List (List Data
     (hr : Range.rows r = hd :: rest) : r.inner.length ≠ 0 := by
   intro h0; rw [rows_nil_of_empty h0] at hr; cases hr
 
+/-! ### the recording visitor -/
+
+theorem recordSeq_append_fail (std : Std) (sched : List Target) :
+    ∀ (pre : List (DRes (Data × Pos))) (i : Nat) (rest : List (DRes (Data × Pos))),
+      (recordSeq std sched i pre).2 = none →
+      (recordSeq std sched i (pre ++ rest)).2 = (recordSeq std sched (i + pre.length) rest).2
+  | [], i, rest, _ => by simp
+  | ev :: pre, i, rest, h => by
+    cases ev with
+    | ok dp =>
+      obtain ⟨d, p⟩ := dp
+      simp only [List.cons_append, recordSeq] at h ⊢
+      cases hv : visitCell std d p (nthTarget sched i) with
+      | ok vs =>
+        simp only [hv] at h ⊢
+        have := recordSeq_append_fail std sched pre (i + 1) rest h
+        simp only [this, List.length_cons]
+        congr 2; omega
+      | err e => simp [hv] at h
+      | panic s => simp [hv] at h
+    | err e => simp [recordSeq] at h
+    | panic s => simp [recordSeq] at h
+
+/-- `new`'s selected columns and headers depend only on the configuration, the first row, the width and
+    the start corner -/
+theorem new_static_congr {std : Std} {cfg : Headers} {r1 r2 : Rng Data} {st1 st2 : DeState}
+    (h1 : new std cfg r1 = .ok st1) (h2 : new std cfg r2 = .ok st2)
+    (hhd : (Range.rows r1)[0]? = (Range.rows r2)[0]?) (hwd : r1.width = r2.width)
+    (hst : r1.start = r2.start) : st1.colIdx = st2.colIdx ∧ st1.headers = st2.headers := by
+  unfold new at h1 h2
+  rw [hst] at h1
+  cases cfg with
+  | none =>
+    simp at h1 h2; subst h1; subst h2; exact ⟨by simp [hwd], rfl⟩
+  | all =>
+    cases hr1 : Range.rows r1 with
+    | nil =>
+      cases hr2 : Range.rows r2 with
+      | nil => simp [hr1, hr2] at h1 h2; subst h1; subst h2; exact ⟨rfl, rfl⟩
+      | cons hd2 rest2 => rw [hr1, hr2] at hhd; simp at hhd
+    | cons hd1 rest1 =>
+      cases hr2 : Range.rows r2 with
+      | nil => rw [hr1, hr2] at hhd; simp at hhd
+      | cons hd2 rest2 =>
+        rw [hr1, hr2] at hhd
+        have : hd1 = hd2 := by simpa using hhd
+        subst this
+        simp only [hr1] at h1
+        simp only [hr2] at h2
+        cases hh : headerRow std hd1 (r2.start.getD (0, 0)) with
+        | ok hs =>
+          simp only [hh] at h1 h2
+          injection h1 with h1; injection h2 with h2; subst h1; subst h2; exact ⟨rfl, rfl⟩
+        | err e => simp [hh] at h1
+        | panic s => simp [hh] at h1
+  | custom names =>
+    cases hr1 : Range.rows r1 with
+    | nil =>
+      cases hr2 : Range.rows r2 with
+      | nil => simp [hr1, hr2] at h1 h2; subst h1; subst h2; exact ⟨rfl, rfl⟩
+      | cons hd2 rest2 => rw [hr1, hr2] at hhd; simp at hhd
+    | cons hd1 rest1 =>
+      cases hr2 : Range.rows r2 with
+      | nil => rw [hr1, hr2] at hhd; simp at hhd
+      | cons hd2 rest2 =>
+        rw [hr1, hr2] at hhd
+        have : hd1 = hd2 := by simpa using hhd
+        subst this
+        simp only [hr1] at h1
+        simp only [hr2] at h2
+        cases hh : headerRow std hd1 (r2.start.getD (0, 0)) with
+        | ok hs =>
+          simp only [hh] at h1 h2
+          cases hc : customIdx hs names with
+          | ok idx =>
+            simp only [hc] at h1 h2
+            injection h1 with h1; injection h2 with h2; subst h1; subst h2; exact ⟨rfl, rfl⟩
+          | err e => simp [hc] at h1
+          | panic s => simp [hc] at h1
+        | err e => simp [hh] at h1
+        | panic s => simp [hh] at h1
+
 end De
